@@ -976,14 +976,14 @@ def i_SHL(i, fmap):
     if count._is_cst:
         if count.value == 0:
             return
-        if count.value == 1:
-            fmap[of] = x.bit(-1) ^ fmap(cf)
-        else:
-            fmap[of] = top(1)
         if count.value <= a.size:
             fmap[cf] = a.bit(a.size - count.value)
         else:
             fmap[cf] = bit0
+        if count.value == 1:
+            fmap[of] = x.bit(-1) ^ fmap(cf)
+        else:
+            fmap[of] = top(1)
     else:
         fmap[cf] = top(1)
         fmap[of] = top(1)
